@@ -1,0 +1,36 @@
+//go:build verif
+
+// Contracts for package sdpfrag, checked by /verif (gvc).  This file contains
+// no declarations; it is compiled only with the verif build tag.
+
+package sdpfrag
+
+//@ -- the trickle-ICE fragment parser is fed the body of WHIP PATCH requests: no input may make it panic (C12)
+//@ extern bufio.NewScanner
+//@   why documented: a new scanner over r
+//@   modifies nothing
+//@   fresh
+//@   ensures nonnil: !isnil(result)
+//@ extern (*bufio.Scanner).Scan
+//@   why documented: advances to the next token; touches the scanner only
+//@   modifies object(s)
+//@ extern (*bufio.Scanner).Bytes
+//@   why documented: the most recent token (a slice into the scanner's buffer)
+//@   modifies nothing
+//@ extern bytes.NewReader
+//@   why documented: a new reader over b
+//@   modifies nothing
+//@   fresh
+//@   ensures nonnil: !isnil(result)
+//@ extern bytes.HasPrefix
+//@   why documented: s begins with prefix; no side effects
+//@   modifies nothing
+//@   ensures longer: result ==> len(s) >= len(prefix)
+//@
+//@ func (*SDPFrag).Unmarshal
+//@   safe
+//@   props C12
+//@   requires nonnil: s != nil
+//@   -- (no-panic sweep only: the frame is not claimed)
+//@   modifies *
+//@   invariant loop 1 receiver: true
